@@ -487,6 +487,13 @@ func isZero(f Field, rv reflect.Value) bool {
 }
 
 func show(rv reflect.Value) string {
+	if rv.Kind() == reflect.Struct { // field by field, pointers dereferenced (no addresses in reports)
+		var p []string
+		for i := 0; i < rv.NumField(); i++ {
+			p = append(p, rv.Type().Field(i).Name+":"+show(rv.Field(i)))
+		}
+		return "{" + strings.Join(p, " ") + "}"
+	}
 	if rv.Kind() == reflect.Ptr {
 		if rv.IsNil() {
 			return "nil"
